@@ -14,6 +14,8 @@ open Genshi Genshi.Incl Genshi.Sexp
                                              cls = markup|text    fb = N | ( node … )
         data  = ( ( name value ) … )   value = ( v str ) | ( l value … )
       → ( ok ( S tag ) | ( E tag ) | ( T s ) … ) | ( err NotFound|Syntax|Undefined ) | fuel | unmodelled
+    kept <files> <entry> <kind>   → ( ok target … ) | err : resolved targets of the statically named includes
+                                    still present in the prepared entry, in document order
     inh <files>            → T | F     (the theorem's hypothesis, with T = all match tags of the file set)
     resolve <pos> <href>   → name | N
 -/
@@ -120,6 +122,13 @@ def handle : List Sexp → Option Sexp
       | "inline-marked" => pure (resOut (renderInline files entry kind data fuel))
       | "runtime" => pure (resOut (renderRuntime files entry kind data fuel))
       | _ => none
+  | [.atom "kept", files, .str entry, kind] => do
+      let files ← files? files
+      let kind ← kind? kind
+      match loadInl files entry kind [] with
+      | .ok r => pure (.list (.atom "ok" :: (targetsL r.1).map .str))
+      | .err _ => pure (.atom "err")
+      | .fuel => pure (.atom "fuel")
   | [.atom "inh", files] => do
       let files ← files? files
       pure (ofBool (inH (matchTags files) files))
